@@ -92,7 +92,7 @@ tail = tail.replace("{FINDINGS}", "\n".join(fl))
 live = [s for s in seeds if s.get("status") != "obsolete"]
 det = [s for s in live if "exit=1" in s.get("check_result", "")]
 missed_first = [s for s in det if "missed at first" in s.get("note", "") or "first reported only" in s.get("note", "")]
-intro = (f"{len(seeds)} changes were written by independent sub-agents in three rounds (one agent per property and round, three changes each; round 2 was told what round 1 had tried, round 3 was asked for mistakes that look like ordinary maintenance — section 7c). Each agent saw only the property text and a scratch worktree. "
+intro = (f"{len(seeds)} changes were written by independent sub-agents in four rounds (one agent per property and round, three changes each; round 2 was told what round 1 had tried, round 3 was asked for mistakes that look like ordinary maintenance — section 7c — and round 4 to plant them in supporting code beyond the anchors — section 7d). Each agent saw only the property text and a scratch worktree. "
          f"Every one was confirmed before it was kept: its demonstration passes on the clean tree and fails with the patch. "
          f"{len(det)} of the {len(live)} live ones are reported by the property's check; {len(missed_first)} of those were missed at first and led to a new or stronger rule (noted per row); "
          f"{len(live)-len(det)} are not detected and the row says why; {len(seeds)-len(live)} became obsolete when the defect it relied on was repaired. "
